@@ -1,7 +1,8 @@
 (* Extraction for C09/C20: scan-line model, removeoverlaps model, verified checkers. *)
 Require Extraction.
 Require Import ExtrOcamlBasic.
-From Adapt Require Import Num.Qaux Rect.RectBase Rect.ScanlineModel Rect.EntailModel Rect.RemoveOverlapsModel.
+From Adapt Require Import Num.Qaux Rect.RectBase Rect.ScanlineModel Rect.EntailModel Rect.RemoveOverlapsModel
+  Cola.PseudoRandomModel.
 Extraction "c09_model.ml" generateXConstraints generateYConstraints cmp_node_pos_addr cmp_node_pos_id
   entail_checkX entail_checkY topo_check removeoverlaps
-  getMinX getMaxX getMinY getMaxY getCentreX getCentreY width height overlapX overlapY moveCentreX moveCentreY.
+  getMinX getMaxX getMinY getMaxY getCentreX getCentreY width height overlapX overlapY moveCentreX moveCentreY stream.
